@@ -2133,9 +2133,9 @@ func streamLife(c *Ctx) {
 				cancel()
 				_ = st.Close()
 				return fmt.Sprintf("Receive returned %v", ok), ok
-			case <-time.After(1500 * time.Millisecond):
+			case <-time.After(3 * time.Second):
 				cancel()
-				return "Receive still blocked after 1.5 s although the handler has sent its message", false
+				return "Receive still blocked after 3 s although the handler has sent its message", false
 			}
 		}})
 		// L11 (round 10, C14-mm): a handler whose outcome is an error that wraps io.EOF - the
